@@ -6,7 +6,7 @@ T = "machine-checked proof in Coq 8.16 (%s) + differential correspondence check 
 CLAIMED = {
  "C02": ("Theorems: every string Utf8Accum hands out is one well-formed scalar (Unicode Table 3-7) for every byte sequence; a well-formed character is emitted from every accumulator state, also after arbitrary garbage; every character event of the decoder is well-formed; the Cli keeps line and history well-formed under every call sequence and sink behaviour; tokens and classified arguments of a well-formed line are well-formed; EVERY slice handed to the sink (echo, redraw, completion, recall, prompts, errors, help, handler output) is well-formed for every call sequence and every sink behaviour when the texts supplied from outside are. Tie: exhaustive byte-class enumeration model vs implementation, all high-byte strings up to length 3/4 against core::str::from_utf8, resynchronisation oracle, completion echo validity.",
          T % "invariant by induction over the byte stream; Hoare-style output invariant over the Cli monad"),
- "C04": ("Theorems: every stream that is a concatenation of well-formed key units segmented greedily decodes to exactly the events of the units, from any non-CSI decoder state; N terminators give N Enters. Tie: spec-generated unit lists evaluated on the implementation (direct oracle), exhaustive byte-class streams and random malformed streams model vs implementation; constants regenerated from codes.rs/input.rs each run.",
+ "C04": ("Theorems: every stream that is a concatenation of well-formed key units segmented greedily decodes to exactly the events of the units, from any non-CSI decoder state; N terminators give N Enters; at the level of the Cli (C04_cli_decoder) the decoder kept between calls is, after ANY sequence of API calls under EVERY sink behaviour and whatever the calls returned, in the state its own run over the bytes fed so far ends in. Tie: sessions through Cli::process_byte vs model and the terminator pair across a failed call; spec-generated unit lists evaluated on the implementation (direct oracle), exhaustive byte-class streams and random malformed streams model vs implementation; constants regenerated from codes.rs/input.rs each run.",
          T % "unit-boundary invariant, induction over the unit list; constants translator"),
  "C17": ("Theorems for EVERY scalar value (no enumeration): encode_utf8 gives the well-formed encoding of the right length and decode inverts it (and conversely), char_pop_front takes exactly the first scalar off, char_count / char_byte_index / common_prefix_len agree with the character-level definitions on all well-formed text, every scalar >= U+0020 (DEL aside) typed as bytes decodes to one character event; end to end: every scalar other than blank and the double quote is one token as a command name and as an argument, `-c` is exactly the short option c for every scalar but `-`, a line consisting of the character is recorded whenever it fits and recalled byte for byte. Tie: all 1.1M scalars inside the harness against Rust's char/str, boundary scalars model vs implementation vs Python codec, end-to-end sessions.",
          T % "algebraic laws / round trips, div-mod arithmetic by lia"),
